@@ -54,6 +54,9 @@ class Pb(Harness):
                    "value comparisons use a margin of 1e-7")
 
     def engine_opts(self, shape):
+        if shape["fam"] == "F":
+            # terms are kept exactly as the code built them so that they can be re-decided in binary64
+            return dict(timeout_ms=8000, simplify=False, fp_timeout_ms=120000, task_paths=20, first_task_paths=6)
         return dict(timeout_ms=8000)
 
     # ------------------------------------------------------------------
@@ -73,6 +76,14 @@ class Pb(Harness):
         # family C: concrete point, symbolic coefficients (incl. NaN) and limits
         S.append(dict(fam="C", n=2, pat=["free", "free"], scale=False, lin=1, nl=0, inside=True))
         S.append(dict(fam="C", n=2, pat=["two", "fixed"], scale=False, lin=1, nl=0, inside=True))
+        # family F: bit-precise (binary64) re-check of "inside the bounds exactly" for the point handed to the user
+        if prop in (None, "C01"):
+            for p in (["two"], ["lower"], ["fixed"]):
+                S.append(dict(fam="F", n=1, pat=p, scale=False, lin=0, nl=0, inside=False))
+            S.append(dict(fam="F", n=1, pat=["two"], scale=True, lin=0, nl=0, inside=False))
+            if tier == "thorough":
+                S.append(dict(fam="F", n=2, pat=["two", "fixed"], scale=True, lin=0, nl=0, inside=False))
+                S.append(dict(fam="F", n=2, pat=["two", "two"], scale=True, lin=0, nl=0, inside=True))
         # vector-valued nonlinear constraints and several objects, mixed limit patterns in one object
         S.append(dict(fam="A", n=1, pat=["free"], scale=False, lin=0, nl=2, inside=True))
         S.append(dict(fam="A", n=1, pat=["free"], scale=False, lin=0, nl=1, m=2, inside=True))
@@ -259,8 +270,10 @@ class Pb(Harness):
         n = shape["n"]
         sig = f"{shape['fam']}:{'+'.join(shape['pat'])}:scale={shape['scale']}"
 
-        def C(prop, clause, cond, s=None):
-            claims.append(Claim(prop, "pb:" + clause, cond, sig=s or sig))
+        fpinfo = dict(fp=True) if shape["fam"] == "F" else None
+
+        def C(prop, clause, cond, s=None, info=None):
+            claims.append(Claim(prop, "pb:" + clause, cond, sig=s or sig, info=info))
 
         C("C02", "statement_accepted_without_internal_error", "exc" not in o,
           s=f"{sig}:{o.get('exc', '')[:40]}@{o.get('exc_where', '')}")
@@ -295,12 +308,14 @@ class Pb(Harness):
             # ---- C01: inside the user's bounds, fixed variables pinned ------------
             if len(r["x"]) == n:
                 C("C01", "user_function_argument_within_bounds",
-                  all_of(b_and(lift(lbs[i]) <= r["x"][i], lift(r["x"][i]) <= ubs[i]) for i in range(n)), s=f"{sig}:{r['t']}")
+                  all_of(b_and(lift(lbs[i]) <= r["x"][i], lift(r["x"][i]) <= ubs[i]) for i in range(n)), s=f"{sig}:{r['t']}",
+                  info=fpinfo)
                 C("C01", "fixed_variable_held_at_its_value",
-                  all_of(lift(r["x"][i]) == lbs[i] for i, p in enumerate(shape["pat"]) if p == "fixed"), s=f"{sig}:{r['t']}")
+                  all_of(lift(r["x"][i]) == lbs[i] for i, p in enumerate(shape["pat"]) if p == "fixed"), s=f"{sig}:{r['t']}",
+                  info=fpinfo)
         bx, fb, vb = o["best"]
         C("C01", "returned_point_within_bounds",
-          len(bx) == n and all_of(b_and(lift(lbs[i]) <= bx[i], lift(bx[i]) <= ubs[i]) for i in range(n)))
+          len(bx) == n and all_of(b_and(lift(lbs[i]) <= bx[i], lift(bx[i]) <= ubs[i]) for i in range(n)), info=fpinfo)
         if not funs or len(funs[0]["x"]) != n:
             return claims, goals
         xu = funs[0]["x"]
